@@ -176,6 +176,9 @@ fn judge_success(
     if logging_on && all_lines.len() == lines.len() {
         ctx.count("logging-on-runs-without-log-lines");
     }
+    if logging_on {
+        ctx.count_by("log_lines_filtered", (all_lines.len() - lines.len()) as u64);
+    }
     let fail_format = |ctx: &mut Ctx, what: &str| {
         ctx.violation(
             &format!("C05/stdout-format/{}", sigp),
@@ -305,7 +308,9 @@ fn success_runs(ctx: &mut Ctx, rng: &mut Rng, dir: &Path) {
                 enc = None;
             }
             let cert = rng.pct(50);
-            let logging_on = rng.pct(20);
+            // every logging level: the answer lines must be exactly the same, log lines start with `![`
+            let level = *rng.pick(&["off", "off", "off", "off", "info", "info", "warn", "error", "debug", "trace"]);
+            let logging_on = level != "off";
             let mut args: Vec<String> = vec!["solve".into(), "-f".into(), file.to_string_lossy().to_string(), "-p".into(), mix_case(rng, p)];
             if inst.apx || rng.pct(50) {
                 args.push("-r".into());
@@ -327,7 +332,7 @@ fn success_runs(ctx: &mut Ctx, rng: &mut Rng, dir: &Path) {
                 args.push(if rng.pct(50) { "-c" } else { "--with-certificate" }.into());
             }
             args.push("--logging-level".into());
-            args.push(if logging_on { "info" } else { "off" }.into());
+            args.push(level.into());
             if let Some(out) = run(&crustabri, &args) {
                 ctx.eval();
                 ctx.count(&format!("success_runs/crustabri/{}", q));
